@@ -10,7 +10,6 @@ import (
 	"strconv"
 	"strings"
 
-	"github.com/miekg/dns"
 	"github.com/spf13/cobra"
 
 	"istio.io/istio/pkg/log"
@@ -254,8 +253,8 @@ type envCase struct {
 	addrErr   bool              // net.InterfaceAddrs() fails
 	raw       map[string]string // field -> the literal text delivered instead of the canonical value (bool spellings)
 	emptyEnv  map[string]bool   // environment-only variables set to the EMPTY string (not unset)
-	uid       string            // what an empty --proxy-uid must default to (observed: passwd entry or 1337)
-	resolv    []string          // nameservers of /etc/resolv.conf (observed)
+	decoy     map[string]string // field given by FLAG whose environment variable is ALSO set, to this other value (the flag wins)
+	host      hostSpec          // /etc/resolv.conf and /etc/passwd as the case sees them (host.go)
 }
 
 func (e envCase) value(field string) (string, bool) {
@@ -316,6 +315,11 @@ func (e envCase) viaToken() string {
 			parts = append(parts, c.field+"="+s)
 		}
 	}
+	for _, k := range []string{"dryrun", "skip"} { // stream cmd only
+		if v := e.via[k]; v != "" {
+			parts = append(parts, k+"="+v)
+		}
+	}
 	if e.envoyUser != "" {
 		parts = append(parts, "user="+e.envoyUser)
 	}
@@ -335,13 +339,28 @@ func (e envCase) viaToken() string {
 			parts = append(parts, "empty:"+n)
 		}
 	}
+	if e.host.synthetic {
+		parts = append(parts, "ns=1")
+		for _, x := range e.host.passwd {
+			parts = append(parts, "pw:"+x)
+		}
+	}
+	for _, c := range contract {
+		if v, ok := e.decoy[c.field]; ok {
+			parts = append(parts, "decoy:"+c.field+"="+v)
+		}
+	}
 	return wire.EncList(parts)
 }
 
 func (e envCase) tokens() []string {
 	t := e.vals.tokens()
 	t[0] = "envcfg"
-	return append(t, wire.Enc(e.uid), wire.EncList(e.resolv), wire.B(e.dual), wire.EncList(e.addrs), e.viaToken())
+	resolv := "!" // cannot be read
+	if e.host.resolvOK {
+		resolv = wire.EncList(e.host.resolv)
+	}
+	return append(t, wire.Enc(e.host.envoyUID), resolv, wire.B(e.dual), wire.EncList(e.addrs), e.viaToken())
 }
 
 func envCaseFromTokens(t []string) (envCase, bool) {
@@ -352,11 +371,29 @@ func envCaseFromTokens(t []string) (envCase, bool) {
 	if !ok {
 		return envCase{}, false
 	}
-	e := envCase{vals: v, uid: wire.Dec(t[25]), resolv: wire.DecList(t[26]), dual: t[27] == "1", addrs: wire.DecList(t[28]),
-		via: map[string]string{}, raw: map[string]string{}, emptyEnv: map[string]bool{}}
+	e := envCase{vals: v, dual: t[27] == "1", addrs: wire.DecList(t[28]),
+		via: map[string]string{}, raw: map[string]string{}, emptyEnv: map[string]bool{}, decoy: map[string]string{}}
+	e.host.envoyUID = wire.Dec(t[25])
+	if t[26] != "!" {
+		e.host.resolvOK, e.host.resolv = true, wire.DecList(t[26])
+	}
 	for _, p := range wire.DecList(t[29]) {
 		if strings.HasPrefix(p, "empty:") {
 			e.emptyEnv[p[6:]] = true
+			continue
+		}
+		if p == "ns=1" {
+			e.host.synthetic = true
+			continue
+		}
+		if strings.HasPrefix(p, "pw:") {
+			e.host.passwd = append(e.host.passwd, p[3:])
+			continue
+		}
+		if strings.HasPrefix(p, "decoy:") {
+			if k, val, ok := strings.Cut(p[6:], "="); ok {
+				e.decoy[k] = val
+			}
 			continue
 		}
 		if k, val, ok := strings.Cut(p, "="); ok {
@@ -403,24 +440,12 @@ func expectedUID(envoyUser string) string {
 	return defaultProxyUID
 }
 
-func resolvServers() []string {
-	c, err := dns.ClientConfigFromFile("/etc/resolv.conf")
-	if err != nil {
-		return nil
+// prepare puts the process into the state of one invocation: host files, environment variables, the
+// interface addresses; it returns the command-line arguments.
+func (e envCase) prepare() ([]string, error) {
+	if err := e.host.realize(); err != nil {
+		return nil, err
 	}
-	return c.Servers
-}
-
-// runRealEnv builds the configuration the way the istio-iptables binary does: config.DefaultConfig(),
-// the real flag set (cmd.bindCmdlineFlags through the verif hook; flag.BindEnv / AdditionalEnv read the
-// environment while binding) parsing real arguments, then Config.FillConfigFromEnvironment()
-// (environment variables, net.InterfaceAddrs through config.LocalIPAddrs, /etc/resolv.conf, passwd).
-func runRealEnv(e envCase) (out compiled, filled rawCfg) {
-	defer func() {
-		if r := recover(); r != nil {
-			out = compiled{status: "crash"}
-		}
-	}()
 	for _, c := range contract {
 		if c.env != "" {
 			os.Unsetenv(c.env)
@@ -458,6 +483,9 @@ func runRealEnv(e envCase) (out compiled, filled rawCfg) {
 		if !ok {
 			continue
 		}
+		if d, has := e.decoy[c.field]; has && c.env != "" { // precedence: the command line beats the environment
+			os.Setenv(c.env, d)
+		}
 		switch e.via[c.field] {
 		case "env":
 			os.Setenv(c.env, v)
@@ -471,7 +499,6 @@ func runRealEnv(e envCase) (out compiled, filled rawCfg) {
 			args = append(args, "--"+c.flag+"="+v)
 		}
 	}
-	old := config.LocalIPAddrs
 	config.LocalIPAddrs = func() ([]net.Addr, error) {
 		if e.addrErr {
 			return nil, fmt.Errorf("route ip+net: no such network interface")
@@ -491,7 +518,26 @@ func runRealEnv(e envCase) (out compiled, filled rawCfg) {
 		}
 		return l, nil
 	}
+	return args, nil
+}
+
+// runRealEnv builds the configuration the way the istio-iptables binary does: config.DefaultConfig(),
+// the real flag set (cmd.bindCmdlineFlags through the verif hook; flag.BindEnv / AdditionalEnv read the
+// environment while binding) parsing real arguments, then Config.FillConfigFromEnvironment()
+// (environment variables, net.InterfaceAddrs through config.LocalIPAddrs, /etc/resolv.conf, passwd).
+// (The ORDER of these steps is the harness's here; stream `cmd` runs the real command instead.)
+func runRealEnv(e envCase) (out compiled, filled rawCfg) {
+	defer func() {
+		if r := recover(); r != nil {
+			out = compiled{status: "crash"}
+		}
+	}()
+	old := config.LocalIPAddrs
 	defer func() { config.LocalIPAddrs = old }()
+	args, err := e.prepare()
+	if err != nil {
+		return compiled{status: "unreproducible:" + strings.ReplaceAll(err.Error(), " ", "_")}, e.vals
+	}
 	cfg := config.DefaultConfig()
 	c := &cobra.Command{Use: "istio-iptables"}
 	iptcmd.VerifBindFlags(cfg, c) // reads the environment
